@@ -58,6 +58,12 @@ def curated(tier):
         for side in ("+", "-", "mix"):
             add("geom_all", cell, p={"itype": "interior_facet", "side": side})
         add("geom_all", cell, p={"itype": "exterior_facet"})
+    from vf.corpus import ZOO
+
+    for k, (cell, fam, deg, var, disc) in enumerate(ZOO):
+        if cell == "interval":
+            continue
+        add("family_zoo", cell, p={"family": fam, "degree": deg, "variant": var, "discontinuous": disc, "itype": ("exterior_facet", "interior_facet")[k % 2]})
     add("facet_plain", "prism")
     add("facet_plain", "prism", p={"degree": 2})
     # mixed-dimensional forms (functions on the facet mesh), sub-meshes of codimension 0, ridge integrals
